@@ -1,6 +1,6 @@
 def register(PROPS, HARNESS_PKGS):
-    def g(rates, bursts, beh):
-        return {"module": "AdmissionGen", "cfg": "Admission_gen.cfg", "params": {"Rates": rates, "Bursts": bursts, "Behaviours": beh}}
+    def g(rates, bursts, beh, kinds='{"rate", "size"}'):
+        return {"module": "AdmissionGen", "cfg": "Admission_gen.cfg", "params": {"Rates": rates, "Bursts": bursts, "Behaviours": beh, "Kinds": kinds}}
     allb = '{"keepalive1", "newconn", "conns4", "burst", "twoips"}'
     part = {
         "name": "admission",
@@ -12,6 +12,13 @@ def register(PROPS, HARNESS_PKGS):
         "trace": {"module": "AdmissionTrace", "cfg": "Admission_trace.cfg"},
         "nontrivial": lambda s: s["kind"] == "rate" or s["size"] in ("max+1", "5max") or s["lenmode"] == "chunked",
     }
+    bucket = dict(part)
+    bucket.update({"name": "bucket", "mc": [], "pkg": "internal/adapter/security", "test": "TestVerif_Bucket",
+                   "harness_dirs": ["security"], "harness_files": ["bucket_test.go"],
+                   "quick": {"gen": [g("{60, 600}", "{1, 3}", '{"keepalive1"}', '{"bucket"}')]},
+                   "thorough": {"gen": [g("{60, 120, 600}", "{1, 3, 5}", '{"keepalive1"}', '{"bucket"}')]},
+                   "nontrivial": lambda s: s["kind"] == "bucket"})
+    HARNESS_PKGS.setdefault("security", "internal/adapter/security")
     PROPS["C17"] = {
         "rule": "TLC enumerates the admission grid: (rate, burst) x client behaviour (one keep-alive connection, a new "
                 "connection per request, 4 parallel connections, a concurrent burst, two source IPs) and body size "
@@ -22,5 +29,5 @@ def register(PROPS, HARNESS_PKGS):
                 "size clauses. Non-trivial = rate scenarios and over-limit or chunked size scenarios.",
         "exhaustive": True,
         "assumptions": ["interval-sound timing: an admission instant lies somewhere in [send, recv] of its request; the bound uses recv_j - send_i"],
-        "parts": [part],
+        "parts": [part, bucket],
     }
